@@ -17,8 +17,10 @@ NCPU = os.cpu_count() or 4
 FORBIDDEN = re.compile(
     r"\b(Admitted|admit|Axiom|Axioms|Parameter|Parameters|Conjecture|Conjectures|Unset\s+Guard|bypass_check|Admit\s+Obligations|type-in-type|impredicative-set|native_compute)\b")
 
-# axioms of the standard library that a theorem may depend on (none is used so far)
+# axioms of the standard library that a theorem may depend on (only C18's Flocq theorems use any: the axioms of
+# Coq's classical real numbers, which every statement about Flocq's B2R depends on)
 ALLOWED_AXIOMS = {
+    "sig_not_dec", "ClassicalDedekindReals.sig_not_dec", "sig_forall_dec", "ClassicalDedekindReals.sig_forall_dec",
     "functional_extensionality_dep", "FunctionalExtensionality.functional_extensionality_dep",
     "proof_irrelevance", "ProofIrrelevance.proof_irrelevance", "JMeq_eq", "JMeq.JMeq_eq",
     "classic", "Classical_Prop.classic", "Eqdep.Eq_rect_eq.eq_rect_eq",
@@ -146,11 +148,20 @@ def proof_leg(pid, extra_targets=(), thorough=False):
         res["failures"].append("coqc Props/%s.v failed: %s" % (pid, out[-600:]))
         return res
     closed = len(re.findall(r"Closed under the global context", out))
-    ax_blocks = re.findall(r"Axioms:\n((?:.+\n?)+?)(?=\n\S|\Z)", out)
-    axs = set()
-    for blk in ax_blocks:
-        for m in re.finditer(r"^(\S+)\s*:", blk, flags=re.M):
-            axs.add(m.group(1))
+    # a block = the lines after "Axioms:" up to the next blank line / next report; an axiom's name starts in column 0
+    # (its type may follow on the same line after " : " or on indented continuation lines)
+    ax_blocks = []
+    cur = None
+    for ln in out.split("\n"):
+        if ln.strip() == "Axioms:":
+            cur = []
+            ax_blocks.append(cur)
+        elif cur is not None:
+            if not ln.strip() or ln.startswith("Closed under") or re.match(r"^(Theorem|Fetching|File) ", ln):
+                cur = None
+            elif not ln[0].isspace():
+                cur.append(ln.split()[0].rstrip(":"))
+    axs = set(a for blk in ax_blocks for a in blk)
     res["axioms"] = sorted(axs)
     not_allowed = [a for a in axs if a not in ALLOWED_AXIOMS and a.split(".")[-1] not in ALLOWED_AXIOMS]
     if not_allowed:
@@ -338,6 +349,8 @@ def run_leg(binary, driver, n, seed, tier, shard=250, corpus=None, single_input=
             for (i, k) in r["mon"]:
                 lr.mons.append((inputs[i], k, r["shard"], i))
     finally:
+        if os.environ.get("VERIF_KEEP"):   # debugging aid: keep the case files of this leg
+            shutil.copytree(work, os.path.join(os.environ["VERIF_KEEP"], os.path.basename(work)), dirs_exist_ok=True)
         shutil.rmtree(work, ignore_errors=True)
         lr.wall = time.time() - t0
     return lr
@@ -420,7 +433,11 @@ def write_evidence(pid, tier, seed, proof, legs, wall, violations, extra=None, a
         "theorems": proof.get("theorems", []),
         "axioms_reported": proof.get("axioms", []),
         "checker_cmd": checker_cmd or ("make -C coq (coq_makefile, full .vo build) && coqc -Q coq ZenoV coq/Props/%s.v  [Print Assumptions under every Theorem]" % pid),
-        "trusted_base": TRUSTED_BASE,
+        "trusted_base": ([TRUSTED_BASE[0],
+                          "axioms: the theorems of this file that speak about IEEE-754 values (Flocq 4, B2R) depend on the standard library's "
+                          "axioms of the classical real numbers and nothing else - " + ", ".join(proof.get("axioms", [])) +
+                          " - as Print Assumptions reports on every run; every other theorem reports 'Closed under the global context'"]
+                         + TRUSTED_BASE[2:]) if proof.get("axioms") else TRUSTED_BASE,
         "evaluations": evaluations,
         "distinct_nontrivial": nontriv,
         "rule": " | ".join("%s: %s" % (l.driver, l.meta.get("rule", "")) for l in legs),
